@@ -42,6 +42,35 @@ type cop struct {
 type concKey struct {
 	Addr []byte
 	ID   uint16
+	Opt  bool // this exporter announces an options template (scope + option fields, 0-2 extra option fields)
+}
+
+// verTemplateFor: the definition that encodes version v for key k.
+func verTemplateFor(k concKey, v int) *wire.Template {
+	if !k.Opt {
+		return verTemplate(k.ID, v)
+	}
+	// versions 3k, 3k+1, 3k+2 share their first two fields and differ only in having 0, 1 or 2 further option fields:
+	// each is an exact extension of the one before - and still another definition
+	w := v / 3
+	t := &wire.Template{ID: k.ID, Options: true,
+		Scope:  []wire.Field{{ID: elemA, Len: uint16(w%vMod + 1), Type: "octetArray"}},
+		Fields: []wire.Field{{ID: elemB, Len: uint16(w/vMod + 1), Type: "octetArray"}}}
+	for j := 0; j < v%3; j++ {
+		t.Fields = append(t.Fields, wire.Field{ID: 4, Len: 1, Type: "unsigned8"})
+	}
+	return t
+}
+
+func tplSetOf(proto string, ts ...*wire.Template) wire.Set {
+	s := wire.Set{Kind: wire.SetTemplate, Templates: ts}
+	if ts[0].Options {
+		s.Kind = wire.SetOptTemplate
+	}
+	if proto == "nf9" {
+		s.Pad = (4 - wire.SetLen(&s)%4) % 4
+	}
+	return s
 }
 
 const (
@@ -77,7 +106,7 @@ func newCacheAPI(proto, file string) *cacheAPI {
 }
 
 func (c *cacheAPI) write(k concKey, v int) {
-	b, _ := wire.EncodeFlow(c.proto, []uint32{1, 2, 3, 4}, []wire.Set{{Kind: wire.SetTemplate, Templates: []*wire.Template{verTemplate(k.ID, v)}}})
+	b, _ := wire.EncodeFlow(c.proto, []uint32{1, 2, 3, 4}, []wire.Set{tplSetOf(c.proto, verTemplateFor(k, v))})
 	if c.proto == "ipfix" {
 		ipfix.NewDecoder(net.IP(k.Addr), b).Decode(c.ic)
 	} else {
@@ -89,8 +118,10 @@ func (c *cacheAPI) write(k concKey, v int) {
 // (ids k.ID+1000 and k.ID+2000, never looked up): exporters announce several templates per set, and the cache may
 // treat a set as a unit.
 func (c *cacheAPI) writeSet(k concKey, v int) {
-	ts := []*wire.Template{verTemplate(k.ID+2000, v), verTemplate(k.ID, v), verTemplate(k.ID+1000, v)}
-	b, _ := wire.EncodeFlow(c.proto, []uint32{1, 2, 3, 4}, []wire.Set{{Kind: wire.SetTemplate, Templates: ts}})
+	k2, k3 := k, k
+	k2.ID, k3.ID = k.ID+2000, k.ID+1000
+	ts := []*wire.Template{verTemplateFor(k2, v), verTemplateFor(k, v), verTemplateFor(k3, v)}
+	b, _ := wire.EncodeFlow(c.proto, []uint32{1, 2, 3, 4}, []wire.Set{tplSetOf(c.proto, ts...)})
 	if c.proto == "ipfix" {
 		ipfix.NewDecoder(net.IP(k.Addr), b).Decode(c.ic)
 	} else {
@@ -144,16 +175,37 @@ func (c *cacheAPI) read(k concKey) (int, string) {
 		}
 		return -2, "no record and no 'unknown template' report: " + errText
 	}
-	if len(first) != 2 || first[0].id != elemA || first[1].id != elemB || first[0].n < 1 || first[0].n > vMod || first[1].n < 1 {
+	if len(first) < 2 || first[0].id != elemA || first[1].id != elemB || first[0].n < 1 || first[0].n > vMod || first[1].n < 1 {
 		return -2, fmt.Sprintf("record shape %v matches no announced definition", first)
 	}
-	return verOf(first[0].n, first[1].n), ""
+	v := verOf(first[0].n, first[1].n)
+	if k.Opt {
+		if len(first) > 4 {
+			return -2, fmt.Sprintf("record shape %v matches no announced definition", first)
+		}
+		return 3*v + len(first) - 2, ""
+	}
+	if len(first) != 2 {
+		return -2, fmt.Sprintf("record shape %v matches no announced definition", first)
+	}
+	return v, ""
 }
 
 func (c *cacheAPI) get(k concKey) (int, string) {
 	var tr ipfix.TemplateRecord
 	if err := c.irpc.Get(ipfix.RPCRequest{ID: k.ID, IP: net.IP(k.Addr)}, &tr); err != nil {
 		return -1, ""
+	}
+	if k.Opt {
+		if tr.TemplateID != k.ID || len(tr.ScopeFieldSpecifiers) != 1 || len(tr.FieldSpecifiers) < 1 ||
+			tr.ScopeFieldSpecifiers[0].ElementID != elemA || tr.FieldSpecifiers[0].ElementID != elemB {
+			return -2, fmt.Sprintf("template record %+v matches no announced definition", tr)
+		}
+		v := verOf(int(tr.ScopeFieldSpecifiers[0].Length), int(tr.FieldSpecifiers[0].Length))
+		if len(tr.FieldSpecifiers) > 3 {
+			return -2, fmt.Sprintf("template record %+v matches no announced definition", tr)
+		}
+		return 3*v + len(tr.FieldSpecifiers) - 1, ""
 	}
 	if tr.TemplateID != k.ID || tr.FieldCount != 2 || len(tr.FieldSpecifiers) != 2 || len(tr.ScopeFieldSpecifiers) != 0 ||
 		tr.FieldSpecifiers[0].ElementID != elemA || tr.FieldSpecifiers[1].ElementID != elemB {
@@ -207,6 +259,7 @@ func concChild(a mon.Args) {
 				ad[12], ad[13], ad[14], ad[15] = 10, 1, byte(h), byte(i)
 				k.Addr = fullCap(ad)
 			}
+			k.Opt = i%2 == 1
 			keys = append(keys, k)
 		}
 		// many short histories beat one enormous one: linearizability checking is NP-complete and its
@@ -899,7 +952,7 @@ func concMain(args mon.Args) {
 	if nOverlap == 0 || nConcReads == 0 {
 		run.HarnessError("no overlapping operations were observed: the workload did not produce concurrency")
 	}
-	run.SetRule("race-detector build of the harness+vflow; per history 4-32 goroutines (writer-, reader-, getter-, dumper-leaning roles) over 2-8 (exporter,id) keys, overlapping or disjoint, 200-2000 operations, GOMAXPROCS 2/4/16; every client call recorded {goroutine,key,op,call,return,result} from one monotonic clock: announce(v) = Decode of a template message (every second one a set of three templates of that exporter) whose field lengths encode a per-key unique version, lookup = Decode of a data set (version read off the decoded record shape) or IRPC.Get, and every Dump file is loaded back with GetCache and contributes one lookup per key over the dump's interval. A further child announces 384 keys per protocol once and then, around three wall-clock second boundaries, lets 16 goroutines re-announce the SAME definitions and look them up (cache entries carry their announcement time; an unchanged re-announcement seconds later is the everyday concurrent operation no sub-second history produces). Oracles: race log (attributed by frames), child survival (a child in which no operation completes for 8 s while a goroutine is parked on a lock or channel inside cache code reports that and exits), 'observed a complete, announced definition', and porcupine linearizability per key against a register model. distinct = histories with > 50 operations")
+	run.SetRule("race-detector build of the harness+vflow; per history 4-32 goroutines (writer-, reader-, getter-, dumper-leaning roles) over 2-8 (exporter,id) keys, overlapping or disjoint, 200-2000 operations, GOMAXPROCS 2/4/16; every client call recorded {goroutine,key,op,call,return,result} from one monotonic clock: announce(v) = Decode of a template message (every second one a set of three templates of that exporter; every second key uses options templates whose number of option fields changes with the version) whose field lengths encode a per-key unique version, lookup = Decode of a data set (version read off the decoded record shape) or IRPC.Get, and every Dump file is loaded back with GetCache and contributes one lookup per key over the dump's interval. A further child announces 384 keys per protocol once and then, around three wall-clock second boundaries, lets 16 goroutines re-announce the SAME definitions and look them up (cache entries carry their announcement time; an unchanged re-announcement seconds later is the everyday concurrent operation no sub-second history produces). Oracles: race log (attributed by frames), child survival (a child in which no operation completes for 8 s while a goroutine is parked on a lock or channel inside cache code reports that and exits), 'observed a complete, announced definition', and porcupine linearizability per key against a register model. distinct = histories with > 50 operations")
 	run.Assume("only schedules that occurred are judged; the race detector makes the locking discipline itself observable beyond them")
 	run.Finish()
 }
